@@ -354,49 +354,33 @@ func c08Decoders(b []byte) (panicked string, which string) {
 		vfuel.Set(20_000)
 		f()
 	}
+	// the decoders are handed the byte string as it is (no IsValid gate): the statement quantifies over every byte
+	// string, and every one of them reports malformed input through its error (or an empty result)
 	try("DecodeQuestion", func() {
-		if d := packet.DNS(b); d.IsValid() == nil {
-			buf := make([]byte, 0, 64)
-			_, idx, err := packet.DecodeQuestion(d, 12, buf)
-			if err == nil {
-				e := packet.NewDNSEntry()
-				e.DecodeAnswers(d, idx, buf)
-			}
+		d := packet.DNS(b)
+		buf := make([]byte, 0, 64)
+		_, idx, err := packet.DecodeQuestion(d, 12, buf)
+		if err == nil {
+			e := packet.NewDNSEntry()
+			e.DecodeAnswers(d, idx, buf)
 		}
 	})
 	try("DNSEntry.DecodeAnswers", func() {
-		if d := packet.DNS(b); d.IsValid() == nil {
-			e := packet.NewDNSEntry()
-			e.DecodeAnswers(d, 12, make([]byte, 0, 64))
-		}
+		e := packet.NewDNSEntry()
+		e.DecodeAnswers(packet.DNS(b), 12, make([]byte, 0, 64))
 	})
-	try("ICMP6RouterAdvertisement.Options", func() {
-		if v := packet.ICMP6RouterAdvertisement(b); v.IsValid() == nil {
-			v.Options()
-		}
-	})
-	try("ICMP6RouterSolicitation.Options", func() {
-		if v := packet.ICMP6RouterSolicitation(b); v.IsValid() == nil {
-			v.Options()
-		}
-	})
-	try("ParseHopByHopExtensions", func() {
-		if v := packet.HopByHopExtensionHeader(b); v.IsValid() {
-			v.ParseHopByHopExtensions()
-		}
-	})
-	try("DHCP4.ParseOptions", func() {
-		if v := packet.DHCP4(b); v.IsValid() == nil {
-			v.ParseOptions()
-		}
-	})
+	try("ICMP6RouterAdvertisement.Options", func() { packet.ICMP6RouterAdvertisement(b).Options() })
+	try("ICMP6RouterSolicitation.Options", func() { packet.ICMP6RouterSolicitation(b).Options() })
+	try("ParseHopByHopExtensions", func() { packet.HopByHopExtensionHeader(b).ParseHopByHopExtensions() })
+	try("DHCP4.ParseOptions", func() { packet.DHCP4(b).ParseOptions() })
 	try("LLDP", func() {
-		if v := packet.LLDP(b); v.IsValid() == nil {
+		v := packet.LLDP(b)
+		for _, t := range []int{0, 1, 2, 3, 4, 5, 6, 7, 8, 127} {
+			v.GetPDU(t)
+		}
+		if v.IsValid() == nil {
 			v.ChassisID()
 			v.PortID()
-			for _, t := range []int{0, 1, 2, 3, 4, 5, 6, 7, 8, 127} {
-				v.GetPDU(t)
-			}
 			_ = v.String()
 		}
 	})
